@@ -1,6 +1,7 @@
 package main
 
 import (
+	"path/filepath"
 	"math/rand"
 	"os"
 	"regexp"
@@ -86,7 +87,7 @@ func genC02Book(r *rand.Rand) (bookSpec, *options.HeaderOption) {
 		var rows [][]string
 		meta := map[string]string{}
 		// a structured sheet (valid by construction) with valid data ...
-		g := &sgen{r: r}
+		g := &sgen{r: r, imported: true}
 		gs := g.sheet(name, 1+r.Intn(5), r.Intn(5))
 		rows = gs.spec.Rows
 		// ... and the slips of everyday editing: a blank type or name cell, a repeated name, a blank column, junk in a data cell
@@ -221,12 +222,18 @@ func runClosure(b bookSpec, hdr ...*options.HeaderOption) string {
 func runClosureRO(b bookSpec, ro runOpts) string {
 	w := newWorkspace()
 	defer w.cleanup()
+	// an imported proto file with a predefined message (generated sheets may use it as a cross-cell struct)
+	impDir := filepath.Join(w.Root, "imported")
+	os.MkdirAll(impDir, 0o755)
+	os.WriteFile(filepath.Join(impDir, "prize.proto"), []byte(importedProto), 0o644)
+	ro.ProtoPaths = append(ro.ProtoPaths, impDir)
+	ro.ProtoFiles = append(ro.ProtoFiles, "prize.proto")
 	w.writeCSVBook("", baseBook())
 	w.writeCSVBook("", b)
 	if err := w.genProto(ro); err != nil {
 		return "closed rejected"
 	}
-	if v := checkProtos(w.Proto); v != "" {
+	if v := checkProtos(w.Proto, impDir); v != "" {
 		if os.Getenv("VERIF_DEBUG") != "" {
 			println("OPEN", v, debugBook(b))
 		}
